@@ -1127,6 +1127,15 @@ class Interp(object):
             if isinstance(args[1], Closure):
                 return Adt("core::option::Option", 1, "Some", [self.exec_closure(st, args[1], [])])
             raise Undecided("bool::then with an unmodelled closure")
+        if c in ("core::ops::FnOnce::call_once", "core::ops::FnMut::call_mut", "core::ops::Fn::call") and len(args) == 2:
+            # a closure value applied to its argument tuple (what the normalising pass leaves of `opt.map_or(d, |x| ..)` when the body is too large to inline)
+            clo = args[0]
+            for _ in range(3):
+                if isinstance(clo, Ref) and clo.loc[0] == "local":
+                    clo = self._get(st, clo.loc)
+            if isinstance(clo, Closure) and isinstance(args[1], Tup):
+                return self.exec_closure(st, clo, list(args[1].fields))
+            raise Undecided("call of a function value that is not a closure literal")
         if c in self.prog.fns and self.depth < 4:
             import inline
             if not t.get("resolved") and inline._dispatches_on_self(self.prog.fns, c):
